@@ -143,7 +143,7 @@ class _StdlibPoints:
 
 
 def run_forced(raw, responder, schedule, *, workers, phase="fuzzing", max_examples=2, max_failures=None,
-               continue_on_failure=False, fault=None, seed=1, stop_cb=None, unique_inputs=False, checks=None, arm_islive=False):
+               continue_on_failure=False, fault=None, seed=1, stop_cb=None, unique_inputs=False, checks=None, arm_islive=False, tids=None):
     """Runs the real engine with one enabled unit phase under the forced schedule.
     Returns dict(prefix=events seen when the schedule ended, events=all events, requests_at_end=..., arrivals=[...])."""
     from schemathesis.core import _verif
@@ -167,8 +167,8 @@ def run_forced(raw, responder, schedule, *, workers, phase="fuzzing", max_exampl
             stream_box.append(stream)
 
     def scheduler():
-        tids = ["C"] + [f"W{i}" for i in range(workers)]
-        if not ctl.wait_ready(tids):
+        ready = tids or (["C"] + [f"W{i}" for i in range(workers)])
+        if not ctl.wait_ready(ready):
             result["error"] = f"threads not ready: at={dict(ctl.at)}"
             ctl.release_all()
             return
